@@ -59,7 +59,7 @@ func TestC13(t *testing.T) {
 	rec := kit.Get("C13")
 	rapid.Check(t, func(t *rapid.T) {
 		o := genOptions(t, rec)
-		big := rapid.IntRange(0, 19).Draw(t, "big") == 0 && (thorough() || rapid.IntRange(0, 3).Draw(t, "bigq") == 0)
+		big := pct(t, "big", map[bool]int{true: 8, false: 3}[thorough()])
 		if big {
 			// crossing 65,535 needs the default / u16 limit (or wider) to be interesting
 			o.Dict = rapid.SampledFrom([]string{"", "u16", "u32", "none"}).Draw(t, "bigdict")
